@@ -10,7 +10,9 @@ Vals == { T, <<"str", <<>>>>, <<"str", <<49>>>>, <<"str", <<97, Eq, 98>>>>, <<"s
           <<"str", <<Slash, 120>>>>, <<"str", <<32, 233>>>>, <<"str", <<58>>>> }
 Pairs == Keys \X Vals
 RECURSIVE Lists(_)
-Lists(n) == IF n = 0 THEN {<<>>} ELSE LET S == Lists(n - 1) IN S \cup {Append(l, p) : l \in {x \in S : Len(x) = n - 1}, p \in Pairs}
+\* the third pair comes from a reduced alphabet (TLC's set-size limit): repeated keys, env keys, a '/'-ending value
+PairsSmall == {<<97>>, <<105, 100>>, <<101, 110, 118, 58, 65>>, <<97, Slash>>, <<101, 110, 118>>} \X {T, <<"str", <<49>>>>, <<"str", <<120, Slash>>>>, <<"str", <<97, Eq, 98>>>>}
+Lists(n) == IF n = 0 THEN {<<>>} ELSE LET S == Lists(n - 1) IN S \cup {Append(l, p) : l \in {x \in S : Len(x) = n - 1}, p \in (IF n >= 3 THEN PairsSmall ELSE Pairs)}
 Init == kvs \in (Lists(MaxPairs) \ {<<>>}) /\ phase = 0
 Next == phase = 0 /\ phase' = 1 /\ UNCHANGED kvs
 Spec == Init /\ [][Next]_<<kvs, phase>>
